@@ -323,6 +323,12 @@ def run_extsplit(case, res):
         # unchanged tree (loud, no value reported; see DESIGN.md section 8 "observations") -> not generated
         cfg["single_dim"] = False
     d = cfg["d"]
+    if cfg["grid"] == "Trapezoidal" and rng.random() < 0.25:
+        cfg["grid"] = "TrapezoidalMixedFlags"
+        flags = [rng.random() < 0.5 for _ in range(d)]
+        flags[0], flags[1] = (True, False) if rng.random() < 0.5 else (False, True)
+        cfg["flags"], cfg["flags_base"] = flags, rng.random() < 0.5
+        cfg["automatic"] = False   # the automatic heuristic asserts on grids without boundary points (known finding of C07)
     comps = make_components(rng, d, case["seed"])
     res.sample = {"config": cfg}
     res.count("grid_" + cfg["grid"])
